@@ -139,8 +139,8 @@ let run_proj (p : proj) =
   end else begin
     let nfiles = List.length p.files in
     let fuel = nat_of_int (4 * nfiles + 16) in
-    let ((v, w'), trace) = txtpp_run (oracle_of p) cfg fuel (List.map nat_of_int p.sched) w in
-    Printf.sprintf "R %s %s T %s %s" p.id (show_verdict v) (String.concat "," (List.map show_task trace)) (show_world w')
+    let (((v, w'), trace), _) = txtpp_run (oracle_of p) cfg fuel (List.map nat_of_int p.sched) w in
+    Printf.sprintf "R %s %s T %s %s" p.id (show_verdict v) (String.concat "," (List.map (fun (t, _) -> show_task t) trace)) (show_world w')
   end
 
 let () =
